@@ -12,7 +12,7 @@ import (
 	"github.com/named-data/ndnd/std/utils"
 )
 
-// rsaSigner is a signer that uses ECC key to sign packets.
+// rsaSigner is a signer that uses RSA key to sign packets.
 type rsaSigner struct {
 	timer ndn.Timer
 	seq   uint64
@@ -27,7 +27,7 @@ type rsaSigner struct {
 
 func (s *rsaSigner) SigInfo() (*ndn.SigConfig, error) {
 	ret := &ndn.SigConfig{
-		Type:    ndn.SignatureSha256WithEcdsa,
+		Type:    ndn.SignatureSha256WithRsa,
 		KeyName: s.keyLocatorName,
 	}
 	if s.forCert {
